@@ -283,5 +283,14 @@ def task_com_removal_callee_angular(ctx):
     C13.task_zero_com_angular(ctx)
 
 
-TASKS_QUICK = ["verlet", "reversibility", "momentum", "kinetic", "nad_step", "com_removal_callee", "com_removal_callee_angular", "thermo_bookkeeping", "thermo_with_velocity_scaling", "thermo_with_energy_shift", "thermo_with_com_removal"]
+def task_thermo_driver_reuse(ctx):
+    """the temperature written is 2 Ek / (kB n_dof) with the degrees of freedom of THIS run: what initialize() leaves on a driver
+    that already ran another job (other centre-of-mass setting) is what a fresh driver computes (contract shared with C15's
+    md_driver_reuse; Basic, Langevin and damped XL_BOMD engines)."""
+    from contracts.C15_history import task_md_driver_reuse
+
+    task_md_driver_reuse(ctx)
+
+
+TASKS_QUICK = ["verlet", "reversibility", "momentum", "kinetic", "nad_step", "com_removal_callee", "com_removal_callee_angular", "thermo_bookkeeping", "thermo_with_velocity_scaling", "thermo_with_energy_shift", "thermo_with_com_removal", "thermo_driver_reuse"]
 TASKS_THOROUGH = TASKS_QUICK
